@@ -623,3 +623,24 @@ func (p *Prog) DumpBaseline() []byte {
 	out, _ := json.MarshalIndent(b, "", " ")
 	return append(out, '\n')
 }
+
+// RemovedNotRenamed: key is a baseline function that is absent from the
+// current tree and for which no candidate exists — no novel function of the
+// same owner with the same signature (which could be a renamed and edited
+// version of it).
+func (p *Prog) RemovedNotRenamed(key string) bool {
+	bl := loadBaseline()
+	b, known := bl.Funcs[key]
+	if !known || BaselineOff {
+		return false
+	}
+	for _, d := range p.decls {
+		if d.key == key {
+			return false
+		}
+		if novelFuncs[d.obj] && ownerOf(d.key) == ownerOf(key) && d.sig == b.Sig {
+			return false
+		}
+	}
+	return true
+}
